@@ -32,6 +32,9 @@ def Vector_na_value (truth : Term → Bool) : Out :=
 /-- the decorators of dataiter/vector.py: Vector.na_value, outermost first -/
 def Vector_na_value_decorators : List String := ["property"]
 
+/-- the signature of dataiter/vector.py: Vector.na_value: parameters in order, with the source text of their defaults -/
+def Vector_na_value_signature : List String := ["self"]
+
 /-- dataiter/vector.py: Vector.na_dtype (sha256 of the function source: dd4bad661e423266) -/
 def Vector_na_dtype (truth : Term → Bool) : Out :=
   if truth (Term.app ".is_datetime" [(Term.sym "self")]) then
@@ -54,6 +57,9 @@ def Vector_na_dtype (truth : Term → Bool) : Out :=
 /-- the decorators of dataiter/vector.py: Vector.na_dtype, outermost first -/
 def Vector_na_dtype_decorators : List String := ["property"]
 
+/-- the signature of dataiter/vector.py: Vector.na_dtype: parameters in order, with the source text of their defaults -/
+def Vector_na_dtype_signature : List String := ["self"]
+
 /-- dataiter/vector.py: Vector.is_na (sha256 of the function source: 489b24035d441d9d) -/
 def Vector_is_na (truth : Term → Bool) : Out :=
   if truth (Term.app ".is_datetime" [(Term.sym "self")]) then
@@ -73,6 +79,9 @@ def Vector_is_na (truth : Term → Bool) : Out :=
 /-- the decorators of dataiter/vector.py: Vector.is_na, outermost first -/
 def Vector_is_na_decorators : List String := []
 
+/-- the signature of dataiter/vector.py: Vector.is_na: parameters in order, with the source text of their defaults -/
+def Vector_is_na_signature : List String := ["self"]
+
 /-- dataiter/vector.py: Vector.drop_na (sha256 of the function source: 94a4d2b6c906399e) -/
 def Vector_drop_na (truth : Term → Bool) : Out :=
   Out.ret [] (Term.app ".copy" [(Term.app "getitem" [(Term.sym "self"), (Term.app "~" [(Term.app ".is_na" [(Term.sym "self")])])])])
@@ -80,12 +89,18 @@ def Vector_drop_na (truth : Term → Bool) : Out :=
 /-- the decorators of dataiter/vector.py: Vector.drop_na, outermost first -/
 def Vector_drop_na_decorators : List String := []
 
+/-- the signature of dataiter/vector.py: Vector.drop_na: parameters in order, with the source text of their defaults -/
+def Vector_drop_na_signature : List String := ["self"]
+
 /-- dataiter/vector.py: Vector.tolist (sha256 of the function source: 6c6b05c5c3a558ee) -/
 def Vector_tolist (truth : Term → Bool) : Out :=
   Out.ret [] (Term.app ".tolist" [(Term.app "np.where" [(Term.app ".is_na" [(Term.sym "self")]), (Term.sym "None"), (Term.sym "self")])])
 
 /-- the decorators of dataiter/vector.py: Vector.tolist, outermost first -/
 def Vector_tolist_decorators : List String := []
+
+/-- the signature of dataiter/vector.py: Vector.tolist: parameters in order, with the source text of their defaults -/
+def Vector_tolist_signature : List String := ["self"]
 
 /-- dataiter/vector.py: Vector.equal (sha256 of the function source: e933f960452bc821) -/
 def Vector_equal (truth : Term → Bool) (self_length : Int) (other_length : Int) : Out :=
@@ -98,5 +113,8 @@ def Vector_equal (truth : Term → Bool) (self_length : Int) (other_length : Int
 
 /-- the decorators of dataiter/vector.py: Vector.equal, outermost first -/
 def Vector_equal_decorators : List String := []
+
+/-- the signature of dataiter/vector.py: Vector.equal: parameters in order, with the source text of their defaults -/
+def Vector_equal_signature : List String := ["self", "other"]
 
 end DI.Gen
